@@ -334,6 +334,32 @@ class CodecMonitor:
             ctx.count("java:cases_written")
         return raw
 
+    def failed_encode(self, case, t, v):
+        """Hostile step: an encode that fails half-way (a valid value
+        followed by an out-of-range / ill-typed field).  Only counts what
+        happened; the *following* encodes are judged as usual, so state left
+        behind by the failure shows up there."""
+        rnd = case.rnd
+        tn = reftypes.show(t)
+        bad_t, bad_v = rnd.choice([
+            ("tuple<%s,uint8_t>" % tn, (v, 300)),
+            ("tuple<%s,int8_t>" % tn, (v, -129)),
+            ("tuple<%s,string>" % tn, (v, 7)),
+            ("sequence<%s>" % tn, [v, object()]),
+            ("tuple<%s,bool>" % tn, (v, "yes")),
+            ("tuple<%s,UUID>" % tn, (v, 12)),
+            ("tuple<%s,foo>" % tn, (v, 1)),
+            ("mapping<uint8_t,%s>" % tn, {1: v, 256: v}),
+        ])
+        try:
+            self.pyenc(bad_v, bad_t)
+            self.ctx.count("failed_encode:did_not_fail")
+        except OpTimeout:
+            raise
+        except Exception as e:
+            self.ctx.count("failed_encode:" + type(e).__name__)
+        self.ctx.count("failed_encodes")
+
     def close(self):
         if self.java_out:
             self.java_out.close()
